@@ -37,3 +37,37 @@ Theorem C13_spectrum_conv (F : fieldType) (p r : nat) (V : 'M[F]_(p,r)) (W : 'M[
   (V *m diag_mx L *m W) *m (V *m delta_mx j 0) = L 0 j *: (V *m delta_mx j (0 : 'I_1)).
 Proof. exact: Dmd.C13_spectrum_conv. Qed.
 Print Assumptions C13_spectrum_conv.
+
+(* ---------- about the code itself: Dmd._fit_regressor as REGENERATED from the source on this run
+   (tools/gen_regressors.py -> Gen/Regressors.v).  The truncated SVD and the eigendecomposition
+   are LAPACK oracles (variables Q, sigma, Z, lmb, V_tilde) with explicit contracts. *)
+From PK Require Import BridgeC13.
+From PK.Gen Require Import Regressors.
+
+(* 'exact' modes: eigenvectors of the full DMD operator Psi_+ Z Sigma^-1 Q^T with the published eigenvalues *)
+Theorem C13_generated_exact_modes (F : fieldType) (p q r : nat) (X_shifted : 'M[F]_(q,p))
+  (Q : 'M[F]_(p,r)) (sigma : 'rV[F]_r) (Z : 'M[F]_(q,r)) (lmb : 'rV[F]_r) (V_tilde : 'M[F]_r) :
+  gen_dmd_eig_argument X_shifted Q sigma Z *m V_tilde = V_tilde *m gen_dmd_Sigma lmb ->
+  dmd_operator X_shifted Q sigma Z *m gen_dmd_modes_exact X_shifted sigma Z V_tilde
+  = gen_dmd_modes_exact X_shifted sigma Z V_tilde *m gen_dmd_Sigma lmb.
+Proof. exact: exact_modes_eigen. Qed.
+Print Assumptions C13_generated_exact_modes.
+
+(* 'projected' modes: eigenvectors of the projected operator Q U_tilde Q^T *)
+Theorem C13_generated_projected_modes (F : fieldType) (p q r : nat) (X_shifted : 'M[F]_(q,p))
+  (Q : 'M[F]_(p,r)) (sigma : 'rV[F]_r) (Z : 'M[F]_(q,r)) (lmb : 'rV[F]_r) (V_tilde : 'M[F]_r) :
+  gen_dmd_eig_argument X_shifted Q sigma Z *m V_tilde = V_tilde *m gen_dmd_Sigma lmb ->
+  Q^T *m Q = 1%:M ->
+  (Q *m gen_dmd_U_tilde X_shifted Q sigma Z *m Q^T) *m gen_dmd_modes_projected Q V_tilde
+  = gen_dmd_modes_projected Q V_tilde *m gen_dmd_Sigma lmb.
+Proof. exact: projected_modes_eigen. Qed.
+Print Assumptions C13_generated_projected_modes.
+
+(* the returned operator: an exact solution of the system handed to lstsq has every column of
+   modes_ as an eigenvector with the published eigenvalue *)
+Theorem C13_generated_returned_operator (F : fieldType) (p r : nat) (lmb : 'rV[F]_r)
+  (modes : 'M[F]_(p,r)) (X : 'M[F]_p) :
+  gen_dmd_lstsq_lhs modes *m X = gen_dmd_lstsq_rhs lmb modes ->
+  X^T *m modes = modes *m gen_dmd_Sigma lmb.
+Proof. exact: returned_operator_eigen. Qed.
+Print Assumptions C13_generated_returned_operator.
